@@ -81,6 +81,8 @@ structure T2TResult where
   parts : Parts
   unknowns : List Str
   diags : List Diag
+  /-- ghost flag of the final state (see `PState.foreign`) -/
+  foreign : Bool := false
 deriving Repr, Inhabited
 
 /-- `tex2txt.tex2txt`; `thresh` = `ml_continue_thresh` set through `modify_parms` -/
@@ -103,7 +105,7 @@ def tex2txt (T : PTables) (fuel : Nat) (latex : Str) (o : Options) (multi : Bool
           let t := strJoin [nl] st.unknowns ++ [nl]
           (t, List.replicate t.length 0)
         else tp1
-      .ok { toks := toks, txt := tp2.1, pos := tp2.2.map (· + 1), parts := [], unknowns := st.unknowns, diags := st.diags }
+      .ok { toks := toks, txt := tp2.1, pos := tp2.2.map (· + 1), parts := [], unknowns := st.unknowns, diags := st.diags, foreign := st.foreign }
     else
       let lc : LangChange := st.rots.map (fun r => (r.code, r.chg))
       match getTxtPosML toks o.lang thresh lc with
@@ -112,6 +114,6 @@ def tex2txt (T : PTables) (fuel : Nat) (latex : Str) (o : Options) (multi : Bool
         let parts1 : Parts := parts.map (fun e =>
           if o.hasRepl && e.1 == o.lang then (e.1, e.2.map (fun tp => replacePhrases T.toTables tp.1 tp.2 o.repl)) else e)
         let parts2 : Parts := parts1.map (fun e => (e.1, e.2.map (fun tp => (tp.1, tp.2.map (· + 1)))))
-        .ok { toks := toks, txt := [], pos := [], parts := parts2, unknowns := st.unknowns, diags := st.diags }
+        .ok { toks := toks, txt := [], pos := [], parts := parts2, unknowns := st.unknowns, diags := st.diags, foreign := st.foreign }
 
 end Yalafi
